@@ -69,8 +69,25 @@ def setup():
     _T["state"] = typhon_state()
 
 
-class InjectedReadError(OSError):
+class InjectedRead(Exception):
+    """Marker for the failures the harness reader injects."""
+
+
+class InjectedReadError(InjectedRead, OSError):
     pass
+
+
+class InjectedKeyError(InjectedRead, KeyError):
+    """e.g. a requested field the file lacks"""
+
+
+class InjectedEOFError(InjectedRead, EOFError):
+    """e.g. a truncated compressed file"""
+
+
+READ_EXC = {"OSError": lambda key: InjectedReadError(5, f"injected EIO reading {key}"),
+            "KeyError": lambda key: InjectedKeyError(f"injected: no field in {key}"),
+            "EOFError": lambda key: InjectedEOFError(f"injected: {key} ends early")}
 
 
 class InjectedFuncError(ValueError):
@@ -93,8 +110,13 @@ class State:
 ROOT = [""]
 
 
+PATHKEY = {}      # absolute path -> key, filled when the files are created
+
+
 def _key(path):
     p = str(path)
+    if p in PATHKEY:
+        return PATHKEY[p]
     rel = p[len(ROOT[0]):].lstrip("/")
     return rel.split("/")[0][:1] + ":" + os.path.basename(p)
 
@@ -126,7 +148,7 @@ def reader(file_info, tag=None):
     if key in st.w["fail_read"]:
         st.fire("read_error")
         st.sim.event("read-fail", key)
-        raise InjectedReadError(5, f"injected EIO reading {key}")
+        raise READ_EXC[st.w.get("read_exc", "OSError")](key)
     st.sim.event("read-end", key)
     return {"file": key, "tag": tag}
 
@@ -191,11 +213,13 @@ def gen_workload(tape):
     w = {}
     w["op"] = tape.pick(["imap", "map", "icollect", "collect", "align"], "op")
     w["n"] = tape.count(1, 8, "n", (3, 4))
-    w["layout"] = tape.pick(["flat", "daily"], "layout")
+    w["layout"] = tape.pick(["flat", "daily", "daily_hm"], "layout")
     # a compression suffix: every read goes through typhon's transparent
     # decompression (the handler then sees a temporary copy)
     w["ext"] = tape.pick([".dat", ".dat", ".dat.gz"], "ext")
     w["gap_h"] = tape.pick([1, 1, 7, 30], "gap")      # hours between files
+    if w["layout"] == "daily_hm":
+        w["gap_h"] = tape.pick([24, 24, 30], "gap_hm")   # the same hh:mm every day
     w["worker_type"] = tape.pick(["thread", "process"], "wtype")
     w["max_workers"] = tape.pick([2, 1, 3, 4, None, 6, 8], "workers")
     n = w["n"]
@@ -268,14 +292,16 @@ def gen_workload(tape):
         w["matches"] = matches
         w["return_info"] = not tape.flag("align_no_info", 1, 3)
     # faults
-    keys_a = [f"a:{_fname(i, w)}" for i in range(n)]
-    keys_b = [f"b:{_fname(j, w)}" for j in range(w.get("m", 0))]
+    keys_a = [_fkey("a", i, w) for i in range(n)]
+    keys_b = [_fkey("b", j, w) for j in range(w.get("m", 0))]
     allk = keys_a + keys_b
     w["fail_read"] = []
     w["fail_func"] = []
     w["func_none"] = []
     w["error_to_warning"] = False
     fault_mode = tape.pick(["none", "none", "read", "func", "both"], "faults")
+    # the class of the reader's failure: any exception is a read error
+    w["read_exc"] = tape.pick(["OSError", "OSError", "KeyError", "EOFError"], "read_exc")
     reads = opts.get("on_content", True) or w["op"] == "align"
     if fault_mode in ("read", "both") and reads:
         w["fail_read"] = [k for k in allk if tape.flag("fr", 1, 4)] or \
@@ -312,14 +338,27 @@ def _ftime(i, w):
     return BASE + timedelta(hours=i * w["gap_h"])
 
 
+def _fkey(side, i, w):
+    """Identity of a file in the model: fileset and start time (the base name
+    alone is not unique in the 'daily_hm' layout)."""
+    t = _ftime(i, w)
+    return f"{side}:" + t.strftime("%Y%m%d_%H%M") + w.get("ext", ".dat")
+
+
 def _fname(i, w):
     t = _ftime(i, w)
+    if w["layout"] == "daily_hm":
+        return t.strftime("%H%M") + w.get("ext", ".dat")
     return t.strftime("%Y%m%d_%H%M") + w.get("ext", ".dat")
 
 
 def _template(root, side, w):
     if w["layout"] == "flat":
         return f"{root}/{side}/{{year}}{{month}}{{day}}_{{hour}}{{minute}}" + w.get("ext", ".dat")
+    if w["layout"] == "daily_hm":
+        # equal base names in different day directories
+        return f"{root}/{side}/{{year}}-{{month}}-{{day}}/{{hour}}{{minute}}" \
+            + w.get("ext", ".dat")
     return f"{root}/{side}/{{year}}-{{month}}-{{day}}/" \
            f"{{year}}{{month}}{{day}}_{{hour}}{{minute}}" + w.get("ext", ".dat")
 
@@ -445,15 +484,18 @@ def run_one(tape, only=None):
     fsmod, FileSet, FileHandler = _T["fsmod"], _T["FileSet"], _T["FileHandler"]
     root = fresh_dir(scratch_root(), "c10")
     ROOT[0] = root
+    PATHKEY.clear()
     SimPoolBase.sim = sim
     SimPoolBase.registry = pools = []
     outcome = {}
     try:
         n = w["n"]
         for i in range(n):
-            _touch(_fpath(root, "a", i, w), f"a:{_fname(i, w)}")
+            PATHKEY[_fpath(root, "a", i, w)] = _fkey("a", i, w)
+            _touch(_fpath(root, "a", i, w), _fkey("a", i, w))
         for j in range(w.get("m", 0)):
-            _touch(_fpath(root, "b", j, w), f"b:{_fname(j, w)}")
+            PATHKEY[_fpath(root, "b", j, w)] = _fkey("b", j, w)
+            _touch(_fpath(root, "b", j, w), _fkey("b", j, w))
         if w["op"] == "align" and not w.get("m"):
             pass
         handler = FileHandler(reader=reader)
@@ -472,7 +514,7 @@ def run_one(tape, only=None):
         infos_a = list(fs_a.find()) if n else []
         infos_b = list(fs_b.find()) if w.get("m") else []
         # the model's own file list (independent of find): by construction
-        exp_a = [(f"a:{_fname(i, w)}", _ftime(i, w)) for i in range(n)]
+        exp_a = [(_fkey("a", i, w), _ftime(i, w)) for i in range(n)]
         if [(_key(f.path), f.times[0]) for f in infos_a] != exp_a:
             # find() itself is C01's subject, but the run cannot go on
             return dict(res, violations=[_viol(
@@ -507,7 +549,7 @@ def run_one(tape, only=None):
             except Deadlock as e:
                 outcome["end"] = "deadlock"
                 outcome["detail"] = str(e)
-            except (InjectedReadError, InjectedFuncError) as e:
+            except (InjectedRead, InjectedFuncError) as e:
                 outcome["end"] = "raised"
                 outcome["exc"] = e
             except BaseException as e:  # noqa: anything else the caller saw
@@ -628,7 +670,7 @@ def _selected_items(w):
 
     def info(i):
         t = _ftime(i, w)
-        return ("info", f"a:{_fname(i, w)}", [str(t), str(t + timedelta(hours=1))])
+        return ("info", _fkey("a", i, w), [str(t), str(t + timedelta(hours=1))])
 
     sel = w["sel"]
     if sel in ("all", "align"):
@@ -641,14 +683,14 @@ def _selected_items(w):
     elif sel == "files":
         idx = list(w["files_idx"])
     elif sel == "bundles":
-        return [("bundle", [f"a:{_fname(i, w)}" for i in b], [info(i) for i in b])
+        return [("bundle", [_fkey("a", i, w) for i in b], [info(i) for i in b])
                 for b in w["bundles"]]
     elif sel == "find_bundle":
         k = w["bundle_size"]
-        return [("bundle", [f"a:{_fname(i, w)}" for i in range(s, min(n, s + k))],
+        return [("bundle", [_fkey("a", i, w) for i in range(s, min(n, s + k))],
                  [info(i) for i in range(s, min(n, s + k))])
                 for s in range(0, n, k)]
-    return [("single", f"a:{_fname(i, w)}", info(i)) for i in idx]
+    return [("single", _fkey("a", i, w), info(i)) for i in idx]
 
 
 def _viol(sig, msg, extra=None):
@@ -718,7 +760,7 @@ def _oracle(w, st, sim, pools, outcome, policy):
     got = outcome.get("got") if end == "returned" else outcome.get("partial")
     if exp_raise is not None:
         exc = outcome.get("exc")
-        want_t = InjectedReadError if exp_raise[1] == "read" else InjectedFuncError
+        want_t = InjectedRead if exp_raise[1] == "read" else InjectedFuncError
         if end != "raised" or not isinstance(exc, want_t) \
                 or exp_raise[2].split("+")[0].split(":")[1] not in str(exc):
             V.append(_viol(
@@ -791,7 +833,7 @@ def _oracle(w, st, sim, pools, outcome, policy):
                            f"func calls {st.func_calls} expected {wantf}"))
     # ---- output fileset: exactly the non-None results, under their names ------
     if opts.get("output"):
-        idx = {f"a:{_fname(i, w)}": i for i in range(w["n"])}
+        idx = {_fkey("a", i, w): i for i in range(w["n"])}
         want_out = {}
         for k, v in wm.get("_outs", {}).items():
             t = _ftime(idx[k], w)
@@ -829,11 +871,11 @@ def _oracle_align(w, st, sim, outcome):
 
     def ainfo(i):
         t = _ftime(i, w)
-        return ("info", f"a:{_fname(i, w)}", [str(t), str(t + timedelta(hours=1))])
+        return ("info", _fkey("a", i, w), [str(t), str(t + timedelta(hours=1))])
 
     def binfo(j):
         t = _ftime(j, w)
-        return ("info", f"b:{_fname(j, w)}", [str(t), str(t + timedelta(hours=1))])
+        return ("info", _fkey("b", j, w), [str(t), str(t + timedelta(hours=1))])
 
     skip = w["error_to_warning"]
     fail = set(w["fail_read"])
@@ -844,8 +886,8 @@ def _oracle_align(w, st, sim, outcome):
         for j in sec:
             if j not in used_s:
                 used_s.append(j)
-    bad = [f"a:{_fname(i, w)}" for i in used_p if f"a:{_fname(i, w)}" in fail] + \
-          [f"b:{_fname(j, w)}" for j in used_s if f"b:{_fname(j, w)}" in fail]
+    bad = [_fkey("a", i, w) for i in used_p if _fkey("a", i, w) in fail] + \
+          [_fkey("b", j, w) for j in used_s if _fkey("b", j, w) in fail]
     if any(len(set(sec)) < len(sec) for _, sec in matches):
         sim.probe("align_duplicate_secondary_in_match")
     seen = set()
@@ -856,7 +898,7 @@ def _oracle_align(w, st, sim, outcome):
             seen.add(j)
     if bad and not skip:
         exc = outcome.get("exc")
-        if end != "raised" or not isinstance(exc, InjectedReadError):
+        if end != "raised" or not isinstance(exc, InjectedRead):
             V.append(_viol("C10/align/exception-not-propagated",
                            f"unreadable {bad} without skip_errors, call ended "
                            f"with {end} {exc!r}"))
@@ -867,9 +909,9 @@ def _oracle_align(w, st, sim, outcome):
                           f"{type(exc).__name__}: {exc}")]
     exp = []
     for i, sec in matches:
-        pk = f"a:{_fname(i, w)}"
+        pk = _fkey("a", i, w)
         for j in sec:
-            sk = f"b:{_fname(j, w)}"
+            sk = _fkey("b", j, w)
             if pk in fail or sk in fail:
                 continue
             pdata = {"file": pk, "tag": None}
@@ -884,8 +926,8 @@ def _oracle_align(w, st, sim, outcome):
             sorted(map(repr, _norm(exp))) else "content"
         V.append(_viol(f"C10/align/results-{cls}",
                        f"got {_norm(got)!r}\nexpected {_norm(exp)!r}"))
-    want = {f"a:{_fname(i, w)}": 1 for i in used_p}
-    want.update({f"b:{_fname(j, w)}": 1 for j in used_s})
+    want = {_fkey("a", i, w): 1 for i in used_p}
+    want.update({_fkey("b", j, w): 1 for j in used_s})
     if st.reads != want:
         V.append(_viol("C10/align/read-count",
                        f"reads {st.reads} expected {want}"))
